@@ -47,8 +47,8 @@ def field_cond(conds, field):
     """-> True (Some / non-empty), False, or None if the path never examined the field."""
     res = None
     for c in conds:
-        if c[0] == "match" and self_field(c[1]) == field and "Some" in c[2]:
-            res = opt_polarity(c)
+        if c[0] == "match" and self_field(c[1]) == field and opt_polarity(c) is not None:
+            res = opt_polarity(c)          # `Some(x) =>`, `None =>`, let-else, if-let / else
         if c[0] == "if":
             t, pol = c[1], c[2]
             while isinstance(t, tuple) and t[0] == "un" and t[1] == "Not":
@@ -59,6 +59,16 @@ def field_cond(conds, field):
                 res = pol
             if is_call(t) and t[1].endswith("::is_none") and self_field(t[2][0]) == field:
                 res = not pol
+            # `v.len() == 0` / `v.len() != 0` / `v.len() > 0` / `0 < v.len()`
+            if isinstance(t, tuple) and t[0] == "bin" and t[1] in ("Eq", "Ne", "Gt", "Lt", "Ge", "Le"):
+                a, b, op = t[2], t[3], t[1]
+                if b[0] != "lit" and a[0] == "lit":
+                    a, b = b, a
+                    op = {"Gt": "Lt", "Lt": "Gt", "Ge": "Le", "Le": "Ge"}.get(op, op)
+                if is_call(a) and a[1].endswith("::len") and self_field(a[2][0]) == field and b[0] == "lit":
+                    nonempty = {("Eq", 0): False, ("Ne", 0): True, ("Gt", 0): True, ("Ge", 1): True, ("Lt", 1): False, ("Le", 0): False}.get((op, b[1]))
+                    if nonempty is not None:
+                        res = nonempty if pol else not nonempty
     return res
 
 
@@ -310,11 +320,29 @@ def check_builder(run, F, bty, spec, T):
             run.ob("R-BUILDERS", "%s::build: %s <- self.%s" % (bty.split("::")[-1], pname, want_field), f == want_field,
                    "constructor parameter %s receives %s" % (pname, tshow(a)[:100]), site(bb, cc[3]), key="R-BUILDERS|%s|arg|%s" % (bty, pname))
         if spec.get("fold"):
-            okf = is_call(r, "std::iter::Iterator::fold") and self_field(r[2][0][2][0] if is_call(r[2][0]) else r[2][0]) == spec["fold"] and r[2][1] is cc
+            # loop form (a `for` statement, or fold / for_each, which the path builder writes as the same loop): one loop over self.<list> in order,
+            # every iteration adds the element to the constructed operation, and the operation that carried the additions is returned
+            loops = [t for t in p.trace if is_call(t, "<for>") and len(t) > 3 and isinstance(t[3], dict)]
+
+            def over(t):
+                it = t[2][0]
+                while is_call(it) and it[1].split("::")[-1] in ("into_iter", "iter", "drain") and it[2]:
+                    it = it[2][0]
+                return self_field(it)
+            mine = [t for t in loops if over(t) == spec["fold"]]
+            okf = len(mine) == 1 and not any(is_call(x) and x[1].split("::")[-1] in ("rev", "skip", "take", "step_by", "filter", "filter_map") for x in subterms(mine[0][2][0]))
             add_ok = False
-            if okf and r[2][2][0] == "closure":
-                m = mentions(r[2][2])
-                add_ok = any(c.endswith("::add_attribute") for c in m["callees"])
+            if okf:
+                bodies = mine[0][3]["paths"]
+                def adds(bp):
+                    calls = [t2 for t2, _c in all_calls(bp) if is_call(t2) and t2[1].endswith("::add_attribute")]
+                    return len(calls) == 1 and any(x[0] == "elem" for x in subterms(calls[0][2][1])) and (calls[0][2][0] is cc or same(calls[0][2][0], cc) or
+                                                                                                          calls[0][2][0][0] in ("var", "phi"))
+                add_ok = bool(bodies) and all(adds(bp) and bp.kind == "fall" for bp in bodies)
+                core = r
+                if core[0] == "phi":
+                    core = core[1]
+                okf = core is cc or same(core, cc)
             used.add(spec["fold"])
             run.ob("R-BUILDERS", "%s::build folds self.%s with add_attribute, in order" % (bty.split("::")[-1], spec["fold"]), okf and add_ok,
                    tshow(r)[:200], site(bb), key="R-BUILDERS|%s|fold" % bty)
